@@ -689,4 +689,13 @@ __CPROVER_ensures(1 <= ODAY(cd) - ODAY(RV) && ODAY(cd) - ODAY(RV) <= 7)
 __CPROVER_ensures(WDAY(ODAY(RV)) == (int)wd)
 __CPROVER_assigns();
 
+
+/* ---- C05: the inverse laws, as lemmas over the operator contracts ------------------------------------------------------------------------
+ * two valid civil seconds with the same second ordinal are the same civil second (mixed-radix digits are unique; equal day ordinals are
+ * equal dates by lemma_dayord_lex) */
+#define lemma_osec_inj_REQ(a, b) (OVALID(a) && OVALID(b) && OSEC(a) == OSEC(b))
+#define lemma_osec_inj_ENS(a, b) (FIELDS_EQ(a, b))
+/* the unit ordinal of a valid civil time is representable */
+#define lemma_unitrepr_REQ(a) (OVALID(a))
+#define lemma_unitrepr_ENS(a) (REPR_second(OSEC(a)) && REPR_minute(OMIN(a)) && REPR_hour(OHOUR(a)) && REPR_day(ODAY(a)))
 #pragma CPROVER check pop
